@@ -46,6 +46,13 @@ def gen(rng, tier):
     # which kind a document is: every subset of the pricing / access-list fields, with and without chain id
     for j, sub, wc in txgen.field_mixes(rng):
         cases.append(Case("tx.sign %s %s" % (hx(j), key()), tags=("field-mix", "fields:" + sub)))
+    # the largest legacy chain ids, with chosen signatures of both parities: v = 35 + 2c + parity must be emitted exactly,
+    # and a chain id for which some parity would not fit 256 bits is refused when the document is read
+    for c in [2 ** 255 - 22 + i for i in range(0, 8)] + [2 ** 254, 2 ** 255 - 1, 2 ** 255, 2 ** 256 - 1]:
+        j, _ = txgen.rand_tx(rng, kind="legacy", chain=c, spellings=["dec-str", "hex-str"])
+        for par in (0, 1):
+            cases.append(Case("tx.encode %s %064x %064x %d" % (hx(j), rng.randrange(1, N), rng.randrange(1, N // 2), par), tags=("chain-bound", "parity:%d" % par)))
+        cases.append(Case("tx.sign %s %s" % (hx(j), key()), tags=("chain-bound",)))
     # chosen signatures: every byte width of r and s (leading zero bytes must be stripped), both parities
     for kind in ("legacy", "eip2930", "eip1559"):
         for w in range(1, 33):
